@@ -162,3 +162,54 @@ func H_C09_findBugStep() {
 	}
 	_ = stepDone
 }
+
+// H_C07_streamState: findBug reuses one stream and one T for all generated test cases. One
+// iteration from an ARBITRARY state of everything they carry over (loop cut-point: counters of
+// the stream's recorder and of the T are havocked): when the test case fails, a FRESH stream
+// seeded with the reported seed hands the same property the same values - the test case is a
+// function of its seed only, not of the test cases that ran before it.
+func H_C07_streamState() {
+	seed0 := nondetU64("seed")
+	var got []uint64
+	prop := func(t *T) {
+		got = nil
+		sl := SliceOfN(Bool(), 0, 2).Draw(t, "sl")
+		got = append(got, uint64(len(sl)))
+		for _, b := range sl {
+			got = append(got, b2u(b))
+		}
+		w := t.s.drawBits(64)
+		got = append(got, w)
+		if w&1 == 1 {
+			t.Fatalf("fail")
+		}
+	}
+	cutLoop("findBug", func() {
+		assume(bAnd(loopVarInt("valid") >= 0, loopVarInt("valid") < 1000))
+		assume(bAnd(loopVarInt("invalid") >= 0, loopVarInt("invalid") < 1000))
+		assume(bAnd(loopVarI64("total") >= 0, loopVarI64("total") <= 1000000000))
+		r := loopFrameValue("*pgregory.net/rapid.randomBitStream").(*randomBitStream)
+		r.dataLen = nondetInt("carried.dataLen")
+		assume(bAnd(r.dataLen >= 0, r.dataLen < 1<<40)) // far from integer overflow: at most 2^40 words drawn so far
+		t := loopFrameValue("*pgregory.net/rapid.T").(*T)
+		t.draws = nondetInt("carried.draws")
+		assume(t.draws >= 0)
+	}, func() {
+		reach("iterated")
+	})
+	if !cutActive() {
+		return // the state leak is only reachable through the cut; nothing to replay natively
+	}
+	_, _, _, seed, err := findBug(newVTB("S"), farDeadline(), 1000, seed0, prop)
+	if err == nil {
+		return
+	}
+	reach("failed")
+	first := append([]uint64(nil), got...)
+	err2 := checkOnce(newT(newVTB("R"), newRandomBitStream(seed, false), false, nil), prop)
+	vassert(err2 != nil && !err2.isInvalidData(), "C07: the reported seed does not reproduce the failure on a fresh stream")
+	vassert(len(got) == len(first), "C07: a test case depends on state carried over from earlier test cases (a fresh stream with the reported seed gives different draws)")
+	for i := 0; i < len(got) && i < len(first); i++ {
+		vassert(got[i] == first[i], "C07: a test case depends on state carried over from earlier test cases (a fresh stream with the reported seed gives different draws)")
+	}
+}
